@@ -778,7 +778,7 @@ func (r *Rig) Do(th int, op string) (res OpResult) {
 		}
 	case "adv":
 		vsched.EnvPoint()
-		if d := atoi64(f[1]); d > 0 && r.Clock.now <= math.MaxInt64-d {
+		if d := atoi64(f[1]); d > 0 && atomic.LoadInt64(&r.Clock.now) <= math.MaxInt64-d {
 			if vsched.FreeRunning {
 				atomic.AddInt64(&r.Clock.now, d)
 			} else {
